@@ -562,6 +562,7 @@ func checkC15(c *Ctx) {
 		})
 	}
 	c.R.Min("R-result-identity", 3)
+	dispatchOwnContext(c, "R-own-context")
 }
 
 func isMinusOne(v ssa.Value) bool { n, ok := ir.ConstInt(v); return ok && n == -1 }
